@@ -9,6 +9,7 @@ pub mod c08;
 pub mod c09;
 pub mod c11;
 pub mod c13;
+pub mod c14;
 pub mod c15;
 pub mod c16;
 pub mod c17;
@@ -33,6 +34,7 @@ pub fn dispatch(ctx: &Ctx) -> Option<Coverage> {
         "C10" => c02::run_c10(ctx),
         "C11" => c11::run_c11(ctx),
         "C13" => c13::run(ctx),
+        "C14" => c14::run(ctx),
         "C15" => c15::run(ctx),
         "C16" => c16::run(ctx),
         "C17" => c17::run(ctx),
